@@ -45,7 +45,8 @@ _cls_counter = [0]
 
 def fresh_class(base=Rule, name=None):
     _cls_counter[0] += 1
-    return type(name or f"G{_cls_counter[0]}", (base,), {})
+    # every grammar class is called "Rule", as in the bundled modules and in most user code: a class's NAME is not its identity
+    return type(name or "Rule", (base,), {})
 
 
 # ---------------------------------------------------------------- building from an AST
